@@ -37,6 +37,7 @@ class Gen:
     self.nfun = 0
     self.in_comp = 0
     self.npat = 0
+    self.cleanup_depth = 0    # nesting of finally / with (CPython duplicates their exit code on every path)
 
   # ---- expressions
   def name(self):
@@ -163,7 +164,7 @@ class Gen:
     deep = depth >= self.max_depth
     k = r.random()
     E = lambda: self.expr(ctx)
-    B = lambda c=ctx, lo=1, hi=3: self.block(c, depth + 1, ind + 1, lo, hi)
+    B = lambda c=ctx, lo=1, hi=(3 if depth < 2 else 2): self.block(c, depth + 1, ind + 1, lo, hi)
     if deep or k < 0.16:
       j = r.random()
       if j < 0.4:
@@ -198,7 +199,31 @@ class Gen:
       if r.random() < 0.3:
         out += [p + "else:"] + B()
       return out
+    if k < 0.65 and self.cleanup_depth >= 2:
+      k = 0.2                  # too deep for another finally/with: emit an if instead
+      out = [p + "if %s:" % E()] + B()
+      return out
     if k < 0.58:
+      self.cleanup_depth += 1
+      try:
+        return self.try_stmt(ctx, depth, ind, B, E)
+      finally:
+        self.cleanup_depth -= 1
+    if k < 0.65:
+      self.cleanup_depth += 1
+      try:
+        items = ", ".join("%s%s" % (E(), r.choice(["", " as " + self.name()])) for _ in range(r.randint(1, 3)))
+        return [p + "%swith %s:" % ("async " if ctx.is_async and r.random() < 0.5 else "", items)] + B()
+      finally:
+        self.cleanup_depth -= 1
+    if k < 0.70:
+      return self.match_stmt(ctx, depth, ind, E)
+    return self.stmt_tail(ctx, depth, ind, k, B, E)
+
+  def try_stmt(self, ctx, depth, ind, B, E):
+    r = self.r
+    p = "  " * ind
+    if True:
       j = r.random()
       out = [p + "try:"] + B()
       if j < 0.15:
@@ -221,10 +246,11 @@ class Gen:
       if r.random() < 0.4:
         out += [p + "finally:"] + B()
       return out
-    if k < 0.65:
-      items = ", ".join("%s%s" % (E(), r.choice(["", " as " + self.name()])) for _ in range(r.randint(1, 3)))
-      return [p + "%swith %s:" % ("async " if ctx.is_async and r.random() < 0.5 else "", items)] + B()
-    if k < 0.70:
+
+  def match_stmt(self, ctx, depth, ind, E):
+    r = self.r
+    p = "  " * ind
+    if True:
       out = [p + "match %s:" % E()]
       n = r.randint(1, 4)
       for i in range(n):
@@ -235,6 +261,10 @@ class Gen:
         guard = " if %s" % E() if r.random() < 0.3 else ""
         out += [p + "  case %s%s:" % (pat, guard)] + self.block(ctx, depth + 2, ind + 2)
       return out
+
+  def stmt_tail(self, ctx, depth, ind, k, B, E):
+    r = self.r
+    p = "  " * ind
     if k < 0.76 and ctx.in_loop and not ctx.no_jump:
       return [p + r.choice(["break", "continue", "continue"])]
     if k < 0.80 and ctx.in_func and not ctx.no_jump:
@@ -281,7 +311,7 @@ class Gen:
 
 
 def program(r, size=None):
-  g = Gen(r, max_depth=r.choice([3, 3, 4, 4, 5]))
+  g = Gen(r, max_depth=r.choice([2, 3, 3, 4]))
   ctx = Ctx(None, False, False)
   out = []
   for _ in range(size or r.randint(1, 4)):
